@@ -95,7 +95,7 @@ class Lock:
     """advisory lock on the shared coq build directory; gives up waiting after `patience` seconds
     (a runaway build elsewhere must not stall every check) and then proceeds unlocked"""
 
-    def __init__(self, path, patience=240):
+    def __init__(self, path, patience=40):
         self.path, self.patience = path, patience
 
     def __enter__(self):
